@@ -36,6 +36,7 @@ def list_jobs():
     jobs.append(("effects:ModelingUpdate.__init__", "effects"))
     jobs.append(("chain:optimize_attr_updates_chain", "chain"))
     jobs += [(j, "timebuilder") for j in TIMEBUILDER_JOBS]
+    jobs.append(("units:custom_units", "units"))
     from . import graph_jobs, lookup_jobs
     jobs += graph_jobs.list_jobs()
     jobs += lookup_jobs.list_jobs()
@@ -220,11 +221,49 @@ def effects_job(job_id, st, rlimit):
     return [(info, eng)]
 
 
+def units_job(job_id, st, rlimit):
+    """the unit system the operator contracts are stated over (C09 'combining incompatible dimensions raises'): ground facts about the
+    REAL registry built from efootprint/constants/units.py + custom_units.txt, evaluated by pint itself.  The contracts take dimensions
+    from this registry, so what is 'incompatible' has to be pinned independently: processor cores, GPUs and the physical base
+    dimensions are pairwise independent."""
+    units = st["units"]; u = units.u
+    q = "efootprint.constants.custom_units"
+    eng = Engine(rlimit=rlimit); eng.fn = q; eng.run = Run([])
+    def ob(name, cond): eng.oblige(f"{q}/{name}", bool(cond), kind="units")
+    base = {"cpu_core": u.cpu_core, "gpu": u.gpu, "kg": u.kg, "hour": u.hour, "W": u.W, "Wh": u.Wh, "dimensionless": u.dimensionless}
+    names = list(base)
+    for i, a in enumerate(names):
+        for b in names[i + 1:]:
+            ob(f"{a} and {b} are incompatible (no conversion between them)", not (1 * base[a]).is_compatible_with(1 * base[b]))
+    for n in ("cpu_core", "gpu"):
+        d = dict(base[n].dimensionality)
+        ob(f"{n} is a base dimension of its own", d == {f"[{n}]": 1})
+        try:
+            (1 * base[n] + 1 * u.dimensionless); ob(f"{n} + a plain number raises", False)
+        except Exception as ex:
+            ob(f"{n} + a plain number raises", type(ex).__name__ == "DimensionalityError")
+    try:
+        (2 * u.cpu_core + 3 * u.gpu); ob("cpu_core + gpu raises", False)
+    except Exception as ex:
+        ob("cpu_core + gpu raises", type(ex).__name__ == "DimensionalityError")
+    ob("year = 365.25 day", abs((1 * u.year).to(u.day).magnitude - 365.25) < 1e-12)
+    ob("1 kWh = 1000 Wh = 3.6e6 J", abs((1 * u.kWh).to(u.Wh).magnitude - 1000) < 1e-9 and abs((1 * u.kWh).to(u.J).magnitude - 3.6e6) < 1e-3)
+    ob("1 GB = 1000 MB = 1e6 kB (decimal prefixes on bytes)", abs((1 * u.GB).to(u.MB).magnitude - 1000) < 1e-9 and abs((1 * u.GB).to(u.kB).magnitude - 1e6) < 1e-6)
+    eng.obligations.append(Obligation(f"{q}/cover", [], z3.BoolVal(False), "cover", q, ()))
+    import hashlib, os
+    from ..extract import REPO
+    path = "efootprint/constants/custom_units.txt"
+    src = open(os.path.join(REPO, path)).read()
+    info = {"function": q, "file": path, "lines": [1, len(src.splitlines())], "sha256": hashlib.sha256(src.encode()).hexdigest()[:16]}
+    return [(info, eng)]
+
+
 def run(job_id, st, rlimit):
     if job_id.startswith("lemma:C12"): return lemma_job(job_id.split(":", 1)[1], st, rlimit)
     if job_id.startswith("effects:"): return effects_job(job_id, st, rlimit)
     if job_id.startswith("chain:"): return chain_job(job_id, st, rlimit)
     if job_id.startswith("timebuilder:"): return timebuilder_job(job_id, st, rlimit)
+    if job_id.startswith("units:"): return units_job(job_id, st, rlimit)
     if job_id.startswith("validator:"):
         from . import validator_jobs
         return validator_jobs.run(job_id, st, rlimit)
